@@ -142,6 +142,8 @@ def check_getitem(out, d, mean, cov, n, brank, idx, mres, rep, label):
     if sum(1 for c in idx if c == "...") > 1:
         return
     last = idx[-1] if idx else None
+    if last == "..." and len(idx) == brank + 2:
+        last = idx[-2]          # a trailing Ellipsis that matches no dimension: the component before it addresses the event dimension
     lk = "int" if isinstance(last, int) else ("ellipsis" if last == "..." else ("slice" if last[0] == "s" else "tensor")) \
         if last is not None else "none"
     key = lambda what: "getitem:last-%s:rank%d:%s:%s" % (lk, brank, rep, what)  # noqa: E731
@@ -214,6 +216,66 @@ def check_getitem(out, d, mean, cov, n, brank, idx, mres, rep, label):
                  impl=cm, model=want)
 
 
+ELL_BATCH = [0, FULL, ["s", 1, None, None], -1, ["t", [1, 0]]]
+
+
+def ell_event_forms(n):
+    """every component form that can stand in the event position (None = the index has no event component)"""
+    forms = [None, 0, -1, n, FULL, ["s", 1, None, None], ["s", None, None, 2], ["s", -2, None, None], ["s", None, n - 1, None],
+             ["t", [n - 1, 0]], ["t", list(range(n - 1, -1, -1))], ["t", [0, 0, n - 1]], ["t", [n]]]
+    seen, res = set(), []
+    for f in forms:
+        if json.dumps(f) not in seen:
+            seen.add(json.dumps(f))
+            res.append(f)
+    return res
+
+
+def ellipsis_grammar(tier, rng):
+    """The index grammar with an Ellipsis at EVERY position of the tuple: base tuples b_1 .. b_j [, e] with j = 0 .. batch rank batch
+    components (int / negative int / full slice / slice / index tensor) and every event component form e (int, out-of-range int,
+    slices, index tensors: pair, full permutation, repetition, out of range; or none), and the Ellipsis inserted before, between
+    and after the components, so that it matches zero dimensions (len(idx) = mean.dim() + 1: leading, middle and TRAILING), one or
+    two dimensions; plus over-long tuples (one component too many) with an Ellipsis at every position, which must raise.
+    Exhaustive for the dense representation, a strided sample (random offset) for every other one."""
+    items = []
+    for n in range(1, 5):
+        evs = ell_event_forms(n)
+        for brank in (0, 1, 2):
+            bases = []
+            for j in range(brank + 1):
+                for bt in itertools.product(ELL_BATCH, repeat=j):
+                    # index tensors: one per tuple and only in the first batch position (several index tensors / a tensor behind
+                    # a slice follow torch's "advanced indexing" transposition rules, which __getitem__ does not claim to follow)
+                    if any(isinstance(c, list) and c[0] == "t" for c in bt[1:]):
+                        continue
+                    # -1 only in the last batch position (same code path as 0; keeps the family small)
+                    if any(c == -1 for c in bt[:-1]):
+                        continue
+                    for ev in evs:
+                        if ev is not None and isinstance(ev, list) and ev[0] == "t" and any(isinstance(c, list) and c[0] == "t" for c in bt):
+                            continue
+                        bases.append((list(bt) + ([ev] if ev is not None else []), "ellipsis-grammar", ev is not None))
+                        if j == brank and ev is not None and ev in (0, FULL, ["t", [n - 1, 0]]):
+                            bases.append((list(bt) + [ev, 0], "ellipsis-grammar-too-many", False))
+            for base, lab, has_ev in bases:
+                # an event component form stays in the event position: behind a shorter batch part the Ellipsis goes before it
+                # (batch-only tuples b_1 .. b_j get the Ellipsis everywhere, also at the end)
+                npos = len(base) if (has_ev and len(base) < brank + 1) else len(base) + 1
+                for pos in range(npos):
+                    idx = base[:pos] + ["..."] + base[pos:]
+                    where = "lead" if pos == 0 and len(base) else ("trail" if pos == len(base) else "mid")
+                    zero = "zero" if len(base) == brank + 1 else ("over" if len(base) > brank + 1 else "some")
+                    items.append((n, brank, idx, "%s:%s-%s" % (lab, where, zero)))
+    res = []
+    for rep in REPS + NEW_REPS:
+        stride = 1 if rep == "dense" else ((9 if tier == "quick" else 3) if rep in REPS else (13 if tier == "quick" else 4))
+        off = rng.randrange(stride)
+        for (n, brank, idx, lab) in items[off::stride]:
+            res.append((n, brank, idx, rep, lab + ":" + rep))
+    return res
+
+
 def run_getitem(out, ctx):
     tier, seed = ctx["tier"], ctx["seed"]
     rng = random.Random(seed * 65537 + 3)
@@ -258,6 +320,7 @@ def run_getitem(out, ctx):
                 extra.append((n, brank, ["..."] + pre + [0, 0], rep, "too-many-ellipsis:" + rep))
                 if brank:
                     extra.append((n, brank, [["t", [1, 0]]] + pre[1:], rep, "batch-tensor:" + rep))
+    extra += ellipsis_grammar(tier, rng)
     cq = ["(%d, %d, %s)" % (brank + 1, n, coq_idx_list(idx)) for (n, brank, idx, rep, lab) in extra]
     res = C.coq_run_cases("C10_idx", IMPORTS, "Definition run := run_mvn_getitem.", cq, shard=max(200, len(cq) // 16 + 1))
     for (n, brank, idx, rep, lab), mres in zip(extra, res):
@@ -1338,7 +1401,11 @@ def run(out, ctx):
                 "mean has fewer batch dimensions than the covariance); indexing: under every batch prefix "
                 "(ints, slices, ellipsis) every last component int -n-1..n and slice with start/stop in {None,-5..5}, step in "
                 "{None,1,2,3} (exhaustive for dense, strided sample for the other representations), index tensors, trailing "
-                "ellipsis, batch-only and malformed tuples; log_prob for 4-5 value shapes broadcasting both ways, fast path on/off; "
+                "ellipsis, batch-only and malformed tuples; Ellipsis grammar: every tuple b_1..b_j [, e] (j = 0..batch rank batch components "
+                "int / negative int / full slice / slice / index tensor; e = none or every event component form: ints, slices, index "
+                "tensors with pair / full permutation / repetition / out of range) with the Ellipsis at EVERY position (leading, "
+                "middle, trailing; matching zero, one or two dimensions) and over-long tuples with an Ellipsis at every position "
+                "(exhaustive for dense, strided for the other representations); log_prob for 4-5 value shapes broadcasting both ways, fast path on/off; "
                 "KL over representation pairs; rsample(base_samples) against the operator's own root; scalar +,*,/, add_jitter, "
                 "sums, expand, unsqueeze; broadcasting sweep: ALL 123 ordered broadcastable pairs of batch shapes of rank 0..2 with "
                 "sizes in {1,2,3} (different ranks and size-1 dimensions on both sides) for KL(p||q) (n 1..3, representation pairs "
